@@ -272,13 +272,13 @@ def pair_program(r: str, tg: str, alias_fields: bool = True):
     return files, [(r, [tg], "")]
 
 
-def all_program(pkgs: List[str]):
+def all_program(pkgs: List[str], alias_fields: bool = True):
     files = {}
     refs = []
     for p in pkgs:
         files[path_of(p, "defs")] = defs_file(p)
     for i, p in enumerate(pkgs):
-        files[path_of(p, "refs")] = refs_file(p, pkgs, suffix="")
+        files[path_of(p, "refs")] = refs_file(p, pkgs, suffix="", alias_fields=alias_fields)
         refs.append((p, pkgs, ""))
     return files, refs
 
